@@ -174,6 +174,7 @@ class Ctx:
         self.casedir = os.path.join(COQ, "cases", "%s.%d" % (pid, os.getpid()))
         self.kf = load_known_findings()
         self.checker_cmds = []
+        self._axiom_users = {}
 
     # ------------------------------------------------------------------ bookkeeping
     def log(self, *a):
@@ -276,9 +277,7 @@ class Ctx:
                             ("closed under the global context" if not a else "axioms: " + "; ".join(a))
                             + (" | NOT ALLOWED: " + "; ".join(bad) if bad else ""))
             for x in a:
-                tb = "axiom (stdlib) used by %s: %s" % (n, x.split(" ")[0])
-                if tb not in self.trusted_base:
-                    self.trusted_base.append(tb)
+                self._axiom_users.setdefault(x.split(" ")[0], []).append(n)
         if self.tier == "thorough" and os.environ.get("VERIF_COQCHK", "1") == "1":
             self.coqchk("MV.%s.Props" % pid)
         return res
@@ -463,7 +462,11 @@ class Ctx:
             self.violation("obligation(s) no longer check and the search found no failing input: "
                            + "; ".join(o["name"] for o in broken[:6]),
                            {"broken_obligations": broken, "tie_broken": self.tie_broken}, no_input=True)
-        shutil.rmtree(self.casedir, ignore_errors=True)
+        if os.environ.get("VERIF_KEEP_CASES") != "1":
+            shutil.rmtree(self.casedir, ignore_errors=True)
+        for ax, users in sorted(self._axiom_users.items()):
+            self.trusted_base.append("axiom declared by the Coq standard library, used by %d theorem(s) (%s%s): %s"
+                                     % (len(users), ", ".join(users[:4]), ", ..." if len(users) > 4 else "", ax))
         wall = time.time() - self.t0
         nob = len(self.obligations)
         ndis = sum(1 for o in self.obligations if o["ok"])
